@@ -68,8 +68,14 @@ CLAIMS.update({
          "defining equation (H^T H) Cov = chi^2 1 evaluated in exact arithmetic on the implementation's covariance, accessors, correlation",
          NUM + "ill-conditioned normal matrices (kappa > 1e6) are not compared", "§6 C13"),
  "C14": ("proof", "sigma_i^2 = j_i^T Cov j_i with unweighted rows, non-negative, size N, monotone in p given a monotone quantile (C14_*); "
-         "correspondence: radius = t * sigma_i exactly, t cross-checked against an independent Student-t evaluation, dof 1..8, accepted and "
-         "rejected probabilities", NUM + "distrs::StudentsT::ppf as the quantile (accurate to ~1e-5)", "§6 C14"),
+         "the floating-point quantile argument (p + 1.) / 2. in IEEE binary64 / widened binary32 as a Flocq model (Props/C14F.v: acceptance "
+         "assertion, exact widening, once-rounded sum halved exactly, range [1/2, 1], C14F_edge_refuted: the largest double below one gives "
+         "argument 1 hence an infinite band — the open known finding —, C14F_one_iff: the only such double, C14F_f32_lt_one: none in f32); "
+         "correspondence: radius = t * sigma_i exactly, bit-exact cast(t * sigma_i) with the library's quantile routine evaluated at the Flocq "
+         "model's argument, t cross-checked against an independent tail-based Student-t evaluation, dof 1..8 and 1000..4000, accepted and "
+         "rejected probabilities incl. 1 - 2^-24, 1 - 3*2^-24, 1 - 2^-53",
+         NUM + "distrs::StudentsT::ppf as the quantile (accurate to ~1e-5); Flocq 4.1.0 and the standard library's real-number axioms "
+         "(ClassicalDedekindReals.sig_forall_dec, sig_not_dec, functional_extensionality_dep, Classical_Prop.classic) for Props/C14F.v only", "§6 C14, §11.4"),
 })
 
 CLAIMS.update({
